@@ -372,6 +372,12 @@ func (r *c05Runner) Step(t []string, raw string) string {
 		if err != nil || pp != "" {
 			return "bad-op"
 		}
+		if meta, ok := c05ParamMeta[c05ParamCases[i].name]; ok {
+			if msg := meta.check(); msg != "" {
+				return "bad-op"
+			}
+			r.stats.Inc("ptype." + meta.ptype)
+		}
 		ast, params, text = m, c05ParamCases[i].params(), c05ParamCases[i].query
 		label = "params:" + c05ParamCases[i].name
 	default:
@@ -706,6 +712,12 @@ type c05ParamCase struct {
 	query  string
 	params func() map[string]any
 }
+
+// harness/c05params.go: per generated value case, the check that the declared dynamic type / form is what the value is
+var c05ParamMeta = map[string]struct {
+	check func() string
+	ptype string
+}{}
 
 var c05ParamCases = []c05ParamCase{
 	{"nested-map-with-nil-slice", "MATCH (n) WHERE n.name = $p RETURN n", func() map[string]any {
